@@ -18,6 +18,9 @@ theorem C17_gen_teardown : Gen.teardown = expectedTeardown := by decide
 theorem C17_gen_complete : Gen.blockingUnlisted = [] ∧ Gen.blockingMissing = [] := by decide
 /-- peer.Run registers the defer that closes peer.Done before its first return -/
 theorem C17_gen_peer_done_defer : Gen.peerDoneDeferBeforeReturns = true := by decide
+/-- … and `close(peer.Done)` is the first statement of that deferred block: the flush loop
+    after it leaves the block with a bare `return` when the torrent's Done is closed -/
+theorem C17_gen_peer_done_first : Gen.peerDoneCloseFirst = true := by decide
 
 def Point.guarded (p : Point) : Bool :=
   p.sel && (p.alts.contains .tDone || p.alts.contains .pDone || p.alts.contains .ctxDone
@@ -458,7 +461,8 @@ example : specOf Gen.blocking "NewPeer" = some newPeerSpec := by decide
 
 /-! ## deletion -/
 
-def delFacts : DelFacts := delFactsOf Gen.blocking Gen.peerDoneDeferBeforeReturns
+def delFacts : DelFacts :=
+  delFactsOf Gen.blocking (Gen.peerDoneDeferBeforeReturns && Gen.peerDoneCloseFirst)
 
 /-- the source facts the deletion model needs: every select of peer.Run (loop and exit
     path) watches the torrent's Done, peer.Done is closed on every return path, and
